@@ -1,5 +1,7 @@
 import Driver.OpsC15
 import TongoModel.WalletMsg
+import TongoModel.WalletInt
+import TongoModel.WalletSendMsg
 /-! Line handlers for property C14 (wallet message bodies, signatures, decoding). -/
 namespace Driver
 open Tongo Tongo.Wallet Tongo.CellFmt
@@ -66,7 +68,54 @@ def cellOutcome (r : Outcome Cell) : String :=
 /-- sign parameter of the model: the harness supplies the Ed25519 signature of the digest -/
 def fixedSign (sig : List UInt8) : List UInt8 → List UInt8 → List UInt8 := fun _ _ => sig
 
+def optCellArg (s : String) : Option (Option Cell) := if s == "-" then some none else (cellArg s).map some
+
+/-- a comment: `-` followed by the hex of its bytes -/
+def commentArg (s : String) : Option (List UInt8) :=
+  if s == "-" then some [] else if s.startsWith "-" then Tongo.Hex.decode (s.drop 1).toString else none
+
+def optHashOut : Option Cell → String
+  | none => "-"
+  | some c => hashOut c
+
+def intMsgOut (m : IntMsg) : String :=
+  let dest := match m.dest with
+    | some (wc, a) => s!"{wc}:{hexOut (Tongo.Bits.bitsToBytes a)}"
+    | none => "none"
+  let b (x : Bool) := if x then "1" else "0"
+  s!"ok {b m.bounce} {dest} {m.amount} {b m.hasInit} {optHashOut m.init.code} {optHashOut m.init.data} {hashOut m.body}"
+
 def opsC14 : List (String × Handler) := [
+  -- m.int <kind s|m|d> <amount> <wc> <addrhex> <bounce> <mode> <-commenthex> <body|-> <code|-> <data|->
+  --   ToInternal + tlb.Marshal of SimpleTransfer / Message / ContractDeploy: "ok <mode> <canonical internal message>"
+  ("m.int", fun
+    | [kind, amount, wc, addr, bounce, mode, comment, body, code, data] =>
+      match amount.toNat?, wc.toInt?, hexArg addr, mode.toNat?, commentArg comment, optCellArg body, optCellArg code, optCellArg data with
+      | some amount, some wc, some addr, some mode, some comment, some body, some code, some data =>
+        let dest : Address := { workchain := wc, hash := addr }
+        let m : Outcome OutMsg :=
+          if kind == "s" then .ok (simpleTransfer amount dest comment (bounce == "1"))
+          else if kind == "m" then
+            .ok { bounce := bounce == "1", dest := dest, amount := amount, body := body, code := code, data := data, mode := mode }
+          else if kind == "d" then contractDeploy sha256 wc code data body amount
+          else .err "kind"
+        match m.bind (fun m => (internalMsg m).bind fun c => .ok (m.mode, c)) with
+        | .ok (mode, c) => s!"ok {mode} {cellOut c}"
+        | .err _ => "err"
+        | .panic _ => "panic"
+      | _, _, _, _, _, _, _, _ => "bad-op"
+    | _ => "bad-op"),
+  -- m.intdec <msg>    tlb.Unmarshal of an internal message: bounce, destination, amount, init (code hash, data hash), body hash
+  ("m.intdec", fun
+    | [msg] =>
+      match cellArg msg with
+      | some msg =>
+        match decodeInternal msg with
+        | .ok m => intMsgOut m
+        | .err e => if e.startsWith "unmodelled" then "unmodelled" else "err"
+        | .panic _ => "panic"
+      | none => "bad-op"
+    | _ => "bad-op"),
   -- m.body <ver> <seed> <wc|_> <sub|_> <net|_> <op> <seqno> <validUntil> <rnd> <sig> <msgs> <specs>
   --   the signed body cell of createSignedMsgBodyCell: "ok <digest> <canonical body>"
   ("m.body", fun
@@ -127,17 +176,14 @@ def opsC14 : List (String × Handler) := [
       | some ver, some pk, some wc, some sub, some net, some code, some seqno, some vu, some rnd =>
         match Version.ofGoIndex? ver, hexArg sig, parseMsgs msgs with
         | some v, some sig, some msgs =>
-          let o := walletOpts wc sub net
-          if msgs.length > maxMessages v then "err sent=0"
-          else
-            let r : Outcome Cell := do
-              let self ← address sha256 code v pk o
-              let body ← createSignedBody sha256 (fixedSign sig) [] v (bodyIds v o) opSignedExternal seqno vu rnd msgs
-              extMessage self body (if init == "1" then some (walletStateInit code v pk o) else none)
-            match r with
-            | .ok m => s!"ok sent=1 {cellOut m}"
-            | .err _ => "err sent=0"
-            | .panic _ => "panic sent=0"
+          -- the message-level send model (TongoModel/WalletSendMsg.lean): guard, build, SendMessage (no error, no waiting)
+          let cfg : SendCfg := { H := sha256, sign := fixedSign sig, sk := [], pk := pk, code := code, v := v, o := walletOpts wc sub net }
+          let sc : Script := { acct := .ok .none, sendErr := false, polls := [] }
+          let r := rawSendV2Msg cfg (fun _ _ _ => false) seqno vu rnd msgs (init == "1") sc 0
+          let tag := match r.outcome with | .ok _ => "ok" | .err _ => "err" | .panic _ => "panic"
+          match r.sent with
+          | some m => s!"{tag} sent=1 {cellOut m}"
+          | none => s!"{tag} sent=0"
         | _, _, _ => "bad-op"
       | _, _, _, _, _, _, _, _, _ => "bad-op"
     | _ => "bad-op"),
